@@ -120,7 +120,15 @@ def check_case(case):
         nontrivial = bool(boundary) or "same-weekday" in cls
         key = (form, pref, tuple(boundary), "same-weekday" in cls, ref.month, ref.weekday(), ref.day) if nontrivial else None
         if got != want:
-            b = "%s-only:%s" % (form, "cross-month" if "cross-month" in boundary else pref)
+            b = "%s-only:%s" % (form, pref)
+            if "cross-month" in boundary:
+                # the recorded finding is one specific mechanism: the reference month is re-imposed on the correct answer
+                # (falling back to December when that day does not exist); any other wrong value is a different violation
+                try:
+                    predicted = want.replace(month=ref.month)
+                except ValueError:
+                    predicted = want.replace(month=12)
+                b = "%s-only:cross-month" % form if got == predicted else "%s-only:cross-month:unexpected-value" % form
             return _fail(b, desc + " -> %r, expected %r" % (got, want), key, cls)
         return {"ok": True, "key": key, "cls": cls}
 
